@@ -1,6 +1,6 @@
 #!/usr/bin/env python3
-"""tools/peg_try.py — developer helper: run texts (one per line of a file, or built-in samples) through
-the PEG model and the real parser and print mismatches.  usage: tools/peg_try.py [file-with-texts]"""
+"""checks/peg_try.py — developer helper: run texts (one per line of a file, or built-in samples) through
+the PEG model and the real parser and print mismatches.  usage: checks/peg_try.py [file-with-texts]"""
 import os
 import sys
 import time
@@ -23,7 +23,7 @@ SAMPLES = [
 
 def main():
     texts = SAMPLES
-    if len(sys.argv) > 1:
+    if len(sys.argv) > 1 and not sys.argv[1].startswith("-"):
         texts = [l.rstrip("\n").encode().decode("unicode_escape") for l in open(sys.argv[1])]
     txt, info = pest2coq.generate(c.REPO)
     c.write_if_changed(os.path.join(c.GEN, "Grammar.v"), txt)
@@ -34,11 +34,20 @@ def main():
         return 1
     h = c.build_harness()
     t0 = time.time()
-    impl = c.harness_lines_resilient(h, "pegtree", [c.hexs(t) for t in texts])
+    ast = "--ast" in sys.argv
+    impl = c.harness_lines_resilient(h, "parse10" if ast else "pegtree", [c.hexs(t) for t in texts])
     t1 = time.time()
-    exprs = ['show_res grule_name (parse blots_grammar (peg_fuel (hx "%s")) PG_input (hx "%s"))' % (c.hexs(t), c.hexs(t))
-             for t in texts]
-    model = c.coq_eval_batch(["Blots.Num", "Blots.Peg", "Blots.gen.Grammar"], "", exprs, "pegtry")
+    if ast:
+        ok, log = c.coq_make(["PegToItems.vo"])
+        if not ok:
+            print(log[-3000:])
+            return 1
+        exprs = ['parse_text (hx "%s")' % c.hexs(t) for t in texts]
+        model = c.coq_eval_batch(["Blots.Num", "Blots.PegToItems"], "", exprs, "pegtry")
+    else:
+        exprs = ['show_res grule_name (parse blots_grammar (peg_fuel (hx "%s")) PG_input (hx "%s"))' % (c.hexs(t), c.hexs(t))
+                 for t in texts]
+        model = c.coq_eval_batch(["Blots.Num", "Blots.Peg", "Blots.gen.Grammar"], "", exprs, "pegtry")
     t2 = time.time()
     bad = 0
     for t, a, b in zip(texts, impl, model):
